@@ -27,8 +27,9 @@ package crypto
 //@ uninterp PAdd(a edwards25519.Point, b edwards25519.Point) edwards25519.Point
 //@ uninterp PMul(c [32]byte, p edwards25519.Point) edwards25519.Point
 //@ uninterp PBase(c [32]byte) edwards25519.Point
-//@ uninterp PEnc(p edwards25519.Point) mathint
-//@ uninterp PDecode(s mathint) edwards25519.Point
+//@ -- (PEnc / PDecode are the C32 observers EncOf / PointOf of trusted/c32.spec: one vocabulary for encodings)
+//@ spec PEnc(p edwards25519.Point) mathint = EncOf(p)
+//@ spec PDecode(s mathint) edwards25519.Point = PointOf(s)
 
 //@ -- TranscriptOf(publics, signers): the byte string collectAggregateSigners returns as transcript (be32(count) followed by
 //@ -- be32(index) || key for every signer). ASSUMED to be a function of the signer list and the selected keys (true: nothing
